@@ -202,6 +202,7 @@ def miri(pid, seed, env, tier):
     # cargo needs cwd = harness
     done = _run_many_cwd(cmds, e, tmo, outdir, "m", HARNESS)
     reports, problems = [], []
+    cut_off = 0
     for i, o, errp, rc in done:
         text = open(errp).read()
         m = MIRI_RE.search(text)
@@ -212,8 +213,16 @@ def miri(pid, seed, env, tier):
             reports.append(_synthetic(pid, "miri", kind, where, text[m.start():m.start() + 3000], cmds[i][1]))
         elif rc == 0 and os.path.exists(o):
             reports.append(json.load(open(o)))
+        elif rc == "watchdog":
+            # The interpreter was still running when the time limit was reached and had reported
+            # nothing: what this process executed until then is "no UB observed", its oracle
+            # counters are lost. Recorded as a cut-off shard (coverage), see below.
+            cut_off += 1
         else:
             problems.append(f"miri shard {i}: {rc} (inconclusive)\n" + text[-600:])
+    info["shards_cut_off_at_time_limit"] = cut_off
+    if cut_off * 2 > shards:
+        problems.append(f"miri: {cut_off} of {shards} processes did not finish within {tmo} s (inconclusive)")
     info["shards"] = len(reports)
     info["evaluations"] = sum(r.get("evaluations", 0) for r in reports)
     return reports, problems, info
